@@ -146,6 +146,9 @@ def rule_r1(ctx: Ctx) -> None:
                        f"the branch for '{norm(b.test)}' reads the type's generic parameters, but a type identical to the bare '{kind}' has "
                        f"none and {kind}[X, ...] is never identical to '{kind}': generic {kind} types fall through to the concrete "
                        f"fallback, which calls the alias with no arguments ({kind}[int, int]() == {'()' if kind == 'tuple' else '[]'})")
+            elif f.startswith("multi:") and not b.negated:
+                for part in f.split(":", 1)[1].split("+"):
+                    forms.setdefault("abstract" if part == "alternatives" else part, b)
             elif not b.negated:
                 forms.setdefault(f, b)
         for req in REQUIRED_FORMS:
@@ -406,7 +409,7 @@ def rule_r5(ctx: Ctx) -> None:
                     continue
                 k = sum(1 for st in stmts_on(pth) for x in ast.walk(st) if isinstance(x, ast.Call) and call_name(x) == "append"
                         and isinstance(x.func, ast.Attribute) and isinstance(x.func.value, ast.Name) and x.func.value.id == argl_id)
-                if k != 1 or pth[-1][1] in ("continue", "break"):
+                if k != 1 or pth[-1][1] == "break":
                     bad.append(k)
             ctx.ob("C01.R5", fn, l, f"{fn.name}: one argument per declared field on every path", not bad,
                    "" if not bad else f"a path through the field loop appends {bad[0]} arguments: the node is built with the wrong number of fields")
